@@ -58,11 +58,25 @@ GRID = [
 ]
 
 
-def rand_case(rng, max_o, max_s, max_f):
+def caterpillar(rng, n, sleaves, fams):
+    """nested chain of internal nodes: the shape on which successive INHERIT nodes appear"""
+    def leaf():
+        k = rng.randint(1, len(fams))
+        return {"sp": rng.choice(sleaves), "syn": sorted(rng.sample(fams, k))}
+    o = leaf()
+    for _ in range(n - 1):
+        o = [o, leaf()] if rng.random() < 0.5 else [leaf(), o]
+    return o
+
+
+def rand_case(rng, max_o, max_s, max_f, chain=0.25):
     S = R.rand_shape(rng, rng.randint(1, max_s))
     nf = rng.randint(1, max_f)
     fams = sorted(rng.sample(range(1, 8), nf))
-    O = R.rand_otree(rng, rng.randint(2, max_o), R.shape_leaves(S), fams=fams)
+    if rng.random() < chain and max_o >= 5:
+        O = caterpillar(rng, rng.randint(5, max_o), R.shape_leaves(S), fams)
+    else:
+        O = R.rand_otree(rng, rng.randint(2, max_o), R.shape_leaves(S), fams=fams)
     c = dict(rng.choice(GRID)) if rng.random() < 0.6 else R.rand_costs(rng)
     return {"S": S, "O": O, "costs": c}
 
@@ -157,7 +171,7 @@ def gen(ctx):
                                 "leafmap": {"g0": "A", "g1": "B", "g2": "A", "g3": "A", "g4": "C", "g5": "B"},
                                 "syntenies": {"g0": ["w"], "g1": ["x", "z"], "g2": ["w"], "g3": ["z"], "g4": ["y"], "g5": ["x"]},
                                 "costs": {"spe": 0, "dup": 1, "hgt": 2, "floss": 1, "sloss": 2}})]
-    for _ in range(900 if quick else 10000):
+    for _ in range(4000 if quick else 30000):
         cases.append(rand_case(rng, 5 if quick else 6, 3 if quick else 4, 4))
     return cases
 
